@@ -81,6 +81,30 @@ std::pair<std::string, std::string> NamesOf(long id, const std::map<long, long>&
 	return {HostName(it->second), SvcShort(id)};
 }
 
+// Text of redundancy group <rg>: "rg<N>" for N < 100; for N >= 100 the group is named EXACTLY like the checkable
+// with node id N - 100 (host: its object name, service: "host!service") - the text of a group and the name of a
+// parent object are unrelated name spaces and may coincide.
+const long kNamedLikeNode = 100;
+
+std::string GroupText(long rg, const std::map<long, long>& hostOf)
+{
+	if (rg < kNamedLikeNode) return "rg" + std::to_string(rg);
+	auto n = NamesOf(rg - kNamedLikeNode, hostOf);
+	return n.second.empty() ? n.first : n.first + "!" + n.second;
+}
+
+// inverse of GroupText (for printing): group text -> group id
+long GroupIdOfText(const std::string& t)
+{
+	if (t.compare(0, 2, "rg") == 0 && t.size() > 2 && t.find_first_not_of("0123456789", 2) == std::string::npos)
+		return std::stol(t.substr(2));
+	size_t bang = t.find("!s");
+	if (bang != std::string::npos) return kNamedLikeNode + std::stol(t.substr(bang + 2));
+	size_t n = t.rfind("_n");
+	if (n != std::string::npos) return kNamedLikeNode + std::stol(t.substr(n + 2));
+	return -1;
+}
+
 std::string StatesExpr(long sf)
 {
 	static const std::pair<long, const char *> names[] = {{1, "OK"}, {2, "Warning"}, {4, "Critical"}, {8, "Unknown"}, {16, "Up"}, {32, "Down"}};
@@ -106,7 +130,7 @@ std::string DepConfig(const PendingDep& d, const std::map<long, long>& hostOf, s
 	}
 	o << "  parent_host_name = \"" << pn.first << "\"\n";
 	if (!pn.second.empty()) o << "  parent_service_name = \"" << pn.second << "\"\n";
-	if (d.rg != "-") o << "  redundancy_group = \"rg" << d.rg << "\"\n";
+	if (d.rg != "-") o << "  redundancy_group = \"" << GroupText(std::stol(d.rg), hostOf) << "\"\n";
 	o << "  states = " << StatesExpr(d.sf) << "\n";
 	o << "  ignore_soft_states = " << (d.iss ? "true" : "false") << "\n";
 	if (d.per != "-") o << "  period = \"" << TpName(std::stol(d.per)) << "\"\n";
@@ -317,7 +341,7 @@ VOP(dg_g)
 			std::sort(r.mem.begin(), r.mem.end());
 			String gn = grp->GetRedundancyGroupName();
 			if (gn.IsEmpty()) { r.kind = 0; r.kid = deps.empty() ? -1 : IdOfNode(deps.front()->GetParent().get()); r.name = "-"; }
-			else { r.kind = 1; r.name = gn.GetData().substr(2); r.kid = std::stol(r.name); }
+			else { r.kind = 1; r.kid = GroupIdOfText(gn.GetData()); r.name = std::to_string(r.kid); }
 			r.tot = grp->GetDependenciesCount();
 			r.st = std::string() + Dig(grp->GetState(kv.second.get(), DependencyState)) + Dig(grp->GetState(kv.second.get(), DependencyCheckExecution))
 				+ Dig(grp->GetState(kv.second.get(), DependencyNotification));
